@@ -89,7 +89,7 @@ class C14(F.PropCheck):
     pid = 'C14'; gen_groups = ['C14Vars']; prop_file = 'Properties_C14'
     IN = {'CFG': 0, 'SEG': 1, 'NEWCONN': 2}
     OUT = {0: 'SEG', 1: 'CMD', 2: 'FAULT'}
-    quick_cases = 3000; thorough_cases = 60000
+    quick_cases = 1200; thorough_cases = 40000
     trusted_extra = ['C14 driver harness/drv/c14.c + harness/wrap/c14_cfgmode_wrap.c (supla_esp_cfgmode.c compiled as is, accessor for the '
                      'private parser state); real connect/recv/disconnect callbacks, supla_esp_cfg_save on the flash double, MQTT build configuration; '
                      'segments are exact-size heap buffers; two builds: clang -O1 ASan+UBSan (stack-use-after-return on, -fwrapv, signed overflow '
@@ -277,7 +277,7 @@ class C14(F.PropCheck):
             changed = img != before
             if saves and not same: v.append('%ssegment %d: the flash sector differs from supla_esp_cfg after the save' % (label, si))
             if saves or changed:
-                if not segs[0].startswith(b'POST / HTTP'):
+                if not any(sg.startswith(b'POST / HTTP') for sg in seen):
                     v.append('%ssegment %d: configuration saved although the request is not a POST to /' % (label, si))
                 elif count < 4:
                     v.append('%ssegment %d: configuration saved although only %d recognised fields were posted' % (label, si, count))
